@@ -5,6 +5,7 @@ import (
 	"os"
 	"regexp"
 	"runtime"
+	"runtime/debug"
 	"strings"
 	"sync"
 	"sync/atomic"
@@ -143,3 +144,11 @@ func newStallDetector() *stallDetector {
 func (s *stallDetector) take() time.Duration { return time.Duration(s.worst.Swap(0)) }
 
 func (s *stallDetector) close() { close(s.stop); s.wg.Wait() }
+
+// holdGC switches the garbage collector off until the returned function is called. A connection the library dropped
+// without closing it is closed by its finalizer at the next collection; while the closing phase of a case and the socket
+// census that follows it run, nothing may be tidied up behind the library's back.
+func holdGC() (release func()) {
+	old := debug.SetGCPercent(-1)
+	return func() { debug.SetGCPercent(old) }
+}
